@@ -501,14 +501,38 @@ def run_check(check: Check, tier: str, seed: int, deadline_s: int) -> int:
     impl_outs = []
     findings: List[Finding] = []
     t_impl = time.time()
+    escaped = []
     for c in cases:
-        o = check.impl(c)
+        try:
+            o = check.impl(c)
+        except Infra:
+            raise
+        except Exception as e:  # noqa — the real code raised where the adapter did not expect it
+            o = {'err': err_name(e), 'escaped_adapter': traceback.format_exc()[-1200:]}
+            escaped.append((c, o))
+            impl_outs.append(o)
+            continue
         impl_outs.append(o)
         findings.extend(check.oracle(c, o))
     cov['impl_wall_s'] = round(time.time() - t_impl, 2)
+    for c, o in escaped[:3]:
+        # not judged by the oracle (its shape is unknown): a broken correspondence, never exit 2 —
+        # an exception of the real code must not look like an infrastructure failure
+        broken.append({'what': 'correspondence', 'detail': f'the real code raised {o["err"]} outside the adapter\'s '
+                       f'expectations on this case', 'case': c.to_json(), 'impl': o})
     reqs, spans = [], []
-    for c in cases:
-        r = check.requests(c)
+    for c, o in zip(cases, impl_outs):
+        if isinstance(o, dict) and 'escaped_adapter' in o:
+            r = []
+        else:
+            try:
+                r = check.requests(c)
+            except Infra:
+                raise
+            except Exception as e:  # noqa — requests() of some checks run the real code again
+                r = []
+                broken.append({'what': 'correspondence', 'detail': f'building the model request raised '
+                               f'{type(e).__name__}: {e}', 'case': c.to_json()})
         spans.append((len(reqs), len(reqs) + len(r)))
         reqs.extend(r)
     disagreements = []
@@ -517,6 +541,8 @@ def run_check(check: Check, tier: str, seed: int, deadline_s: int) -> int:
         try:
             answers = run_driver(reqs)
             for c, o, (a, b) in zip(cases, impl_outs, spans):
+                if isinstance(o, dict) and 'escaped_adapter' in o:
+                    continue
                 d = check.compare(c, o, answers[a:b])
                 if d is not None:
                     disagreements.append({'case': c.to_json(), 'impl': o, 'model': answers[a:b], 'diff': d})
